@@ -21,6 +21,15 @@ enum SchedStatus { SCHED_OK = 0, SCHED_DEADLOCK = 1, SCHED_BUDGET = 2 };
 struct SchedStats { int64_t switches = 0, decisions = 0, yields_by_kind[16] = {0}, blocked_on_mutex = 0, blocked_on_sem = 0, timed_wakeups = 0; uint64_t hash = 1469598103934665603ULL; int tasks = 0; std::string deadlock_info; };
 
 void sched_begin(uint64_t seed, const SchedPolicy& p);                 // installs the hooks
+// Explicit schedules.  Every run records its schedule as a list of entries
+//   {kind, at, to}: kind 0 = voluntary switch at yield decision number `at` to task `to`;
+//                   kind 1 = forced pick (the running task blocked or finished), n-th forced pick -> task `to`;
+//                   kind 2 = wake-up choice, n-th choice -> index `to` into the waiter list.
+// sched_begin_scripted() replays such a list: a task keeps the baton unless the script says otherwise, so
+// deleting voluntary entries yields a simpler but still fully determined schedule (used for minimisation).
+struct SchedEntry { int kind; int64_t at; int to; };
+void sched_begin_scripted(uint64_t seed, const SchedPolicy& p, const std::vector<SchedEntry>& script);
+const std::vector<SchedEntry>& sched_trace();
 int sched_spawn(const std::function<void()>& fn);                      // may be called before sched_run or by a running task
 SchedStatus sched_run();                                               // called by the controlling thread; returns when all tasks are done
 void sched_end();                                                      // removes the hooks
